@@ -39,6 +39,9 @@ func init() {
 	for s := 0; s < recSlots; s++ {
 		allSlots = append(allSlots, recSlotBase+uint64(s))
 	}
+	for s := 0; s < 2*outPairs; s++ {
+		allSlots = append(allSlots, outSlotBase+uint64(s))
+	}
 }
 
 func run(c *kit.Ctx) {
@@ -58,7 +61,7 @@ func run(c *kit.Ctx) {
 		return
 	}
 	c.End("")
-	n := c.N(8000, 400000)
+	n := c.N(9000, 400000)
 	for i := 0; i < n; i++ {
 		id := fmt.Sprintf("p%d", i)
 		if !c.Mine(i, id) {
@@ -93,6 +96,9 @@ func selfCheck() string {
 	if got := model.C16CreateAddr(s, 1); got.Hex() != "343c43a37d37dff08ae8c4a11544c718abb4fcf8" {
 		return "CREATE vector nonce 1: " + got.Hex()
 	}
+	if why := precompileSelfCheck(); why != "" {
+		return "native contract functions: " + why
+	}
 	return ""
 }
 
@@ -108,6 +114,7 @@ type prepared struct {
 	sim   *model.C16Sim
 	init  *model.C16State
 	tries int
+	pan   interface{} // the implementation panicked while gas was being sized by dry runs
 }
 
 // prepare generates a program whose predicted outcome is provably independent of gas.
@@ -115,6 +122,22 @@ func prepare(c *kit.Ctx, id string) *prepared {
 	r := c.Rand(id)
 	for try := 0; try < 40; try++ {
 		p, pre := genProgram(r)
+		if err := model.C16Compile(p); err != nil {
+			c.Count("gen_rejected_size", 1)
+			continue
+		}
+		var modes []int
+		for i := range p.Txs {
+			mode := r.Intn(4)
+			if i == len(p.Txs)-1 && r.Intn(2) == 0 {
+				mode = 3
+			}
+			modes = append(modes, mode)
+		}
+		// creation frames at the code-deposit boundary: the gas is sized by dry runs of the implementation
+		if pan := calibrate(c, p, pre, modes); pan != nil {
+			return &prepared{p: p, pre: pre, modes: modes, pan: pan}
+		}
 		if err := model.C16Compile(p); err != nil {
 			c.Count("gen_rejected_size", 1)
 			continue
@@ -145,14 +168,7 @@ func prepare(c *kit.Ctx, id string) *prepared {
 			c.Count("gen_rejected_gas_not_provably_ample", 1)
 			continue
 		}
-		pp := &prepared{p: p, pre: pre, res: res, sim: sim, init: init, tries: try + 1}
-		for i := range p.Txs {
-			mode := r.Intn(4)
-			if i == len(p.Txs)-1 && r.Intn(2) == 0 {
-				mode = 3
-			}
-			pp.modes = append(pp.modes, mode)
-		}
+		pp := &prepared{p: p, pre: pre, res: res, sim: sim, init: init, tries: try + 1, modes: modes}
 		// second run of the reference with the known defect emulated; used only to put the right name on a
 		// deviation from the first one
 		simD := model.NewC16Sim(p, init)
@@ -215,10 +231,16 @@ func (pp *prepared) witness(tx int, phase string, diffs []string, between []stri
 }
 
 func runProgram(c *kit.Ctx, id string) {
-	pp := prepare(c, id)
+	// (the preparation executes the implementation too: dry runs that size gas)
 	c.Begin(id, map[string]interface{}{"generator": "C16 frame-tree DSL, PRNG of (seed, case id)"})
+	pp := prepare(c, id)
 	if pp == nil {
 		c.Count("gen_gave_up", 1)
+		c.End("")
+		return
+	}
+	if pp.pan != nil {
+		c.Violation("evm-panic", fmt.Sprintf("the EVM panicked in a dry run that sizes gas: %v", pp.pan), pp.witness(len(pp.p.Txs)-1, "dry run", nil, nil))
 		c.End("")
 		return
 	}
@@ -273,8 +295,11 @@ func runProgram(c *kit.Ctx, id string) {
 	for _, a := range pp.pre {
 		uni[ca(a.Addr)] = true
 	}
-	for _, a := range []model.C16Addr{eoaAbsentA, eoaAbsentB, model.C16Identity, zeroAddr} {
+	for _, a := range []model.C16Addr{eoaAbsentA, eoaAbsentB, zeroAddr, eoaBalOnly} {
 		uni[ca(a)] = true
+	}
+	for n := 1; n <= 8; n++ {
+		uni[ca(model.C16PrecompileAddr(n))] = true
 	}
 	for a := range pp.sim.Addrs() {
 		uni[ca(a)] = true
@@ -319,6 +344,10 @@ func runProgram(c *kit.Ctx, id string) {
 		}
 
 		tr := newTracer(st, univ, observe)
+		topBoundary := tx.Boundary != nil && tx.Create && tx.Root == tx.Boundary
+		if tx.Boundary != nil && !topBoundary {
+			tr.watchInit = tx.Boundary.InitCode
+		}
 		cfg := core.CombineVMConfig(&yp, vm.LocalConfig{Debug: true, Tracer: tr})
 		ctx := vm.Context{
 			CanTransfer: core.CanTransfer, Transfer: core.Transfer,
@@ -335,7 +364,9 @@ func runProgram(c *kit.Ctx, id string) {
 			created common.Address
 		)
 		pan := kit.Guard(func() {
-			if tx.Create {
+			if tx.Direct != nil {
+				_, left, cerr = evm.Call(vm.AccountRef(ca(p.Origin)), ca(tx.Direct.Addr), tx.Direct.CallData(), tx.Gas, new(big.Int).SetUint64(tx.Value))
+			} else if tx.Create {
 				_, created, left, cerr = evm.Create(vm.AccountRef(ca(p.Origin)), tx.Root.InitCode, tx.Gas, new(big.Int).SetUint64(tx.Value))
 			} else {
 				var input [32]byte
@@ -363,6 +394,10 @@ func runProgram(c *kit.Ctx, id string) {
 		}
 		if tx.Create {
 			feats["top-create"] = true
+		}
+		if tx.Direct != nil {
+			feats["top-direct"] = true
+			c.Count("transactions_calling_a_literal_address_directly", 1)
 		}
 		if tx.Repeat > 0 {
 			feats["tree-run-again"] = true
@@ -407,6 +442,29 @@ func runProgram(c *kit.Ctx, id string) {
 			break
 		}
 		c.Evals(tr.checks)
+		if tx.Boundary != nil {
+			// the verdict at the code-deposit boundary that the reference works with came from dry runs: it is
+			// confirmed against what the tracer saw, and a disagreement abandons the program
+			created, seen := cerr == nil, topBoundary
+			if !topBoundary && len(tr.watch) == 1 {
+				created, seen = tr.watch[0].ok, true
+			}
+			if !seen || created == tx.BoundaryFails {
+				c.Count("calibration_verdict_not_confirmed_program_abandoned", 1)
+				bad = true
+				break
+			}
+			c.Count("calibrated_creations_executed", 1)
+			if tx.CreatorDies {
+				c.Count("calibrated_creations_whose_creator_is_out_of_gas_right_after", 1)
+			}
+			if tx.BoundaryFails {
+				c.Count("calibrated_creations_failing_at_code_deposit", 1)
+				feats["calibrated-deposit-failure"] = true
+			} else {
+				c.Count("calibrated_creations_with_code_deposit_just_paid", 1)
+			}
+		}
 
 		// (2) outcome of the top-level frame as the reference predicts
 		if (cerr == nil) != res.OK {
@@ -481,7 +539,7 @@ func runProgram(c *kit.Ctx, id string) {
 		if quiet {
 			// nothing
 		} else if diffs := compareLive(st, res.Pre, univ, true); len(diffs) > 0 {
-			cl, note := attrib(classify(diffs, pp), false, nil)
+			cl, note := attrib(classifyTx(diffs, pp, res, tr), false, nil)
 			c.Violation(cl, fmt.Sprintf("tx%d after execution: real state differs from the DSL reference: %s%s", ti, firstN(diffs, 4), note), pp.witness(ti, "after execution (before finalisation)", diffs, between))
 			bad = true
 			break
@@ -537,7 +595,7 @@ func runProgram(c *kit.Ctx, id string) {
 			// nothing
 		} else if diffs := compareLive(st, res.Post, univ, false); len(diffs) > 0 {
 			fl, _ := trieDump(st)
-			cl, note := attrib(classify(diffs, pp), true, fl)
+			cl, note := attrib(classifyTx(diffs, pp, res, tr), true, fl)
 			c.Violation(cl, fmt.Sprintf("tx%d after finalisation: real state differs from the DSL reference: %s%s", ti, firstN(diffs, 4), note), pp.witness(ti, "after finalisation", diffs, between))
 			bad = true
 			break
@@ -549,7 +607,7 @@ func runProgram(c *kit.Ctx, id string) {
 			break
 		}
 		if diffs := compareTrie(trieAfter, res.Post); len(diffs) > 0 {
-			cl, note := attrib(classify(diffs, pp), true, trieAfter)
+			cl, note := attrib(classifyTx(diffs, pp, res, tr), true, trieAfter)
 			c.Violation(cl, fmt.Sprintf("tx%d: flushed tries differ from the DSL reference: %s%s", ti, firstN(diffs, 4), note), pp.witness(ti, "flushed tries after finalisation", diffs, between))
 			bad = true
 			break
@@ -734,6 +792,10 @@ func compareLive(st *state.StateDB, m *model.C16State, addrs []common.Address, p
 		} else if st.HasSuicided(a) {
 			d = append(d, fmt.Sprintf("selfdestructed(%s): still flagged after finalisation", name))
 		}
+		if ac == nil && !ex && model.C16PrecompileIndex(ma(a)) > 0 {
+			// an absent native-contract address (they are in every universe): no storage to read
+			continue
+		}
 		for _, s := range allSlots {
 			var w model.C16Word
 			if ac != nil {
@@ -826,9 +888,53 @@ func (pp *prepared) doomedTags() map[uint64]bool {
 		}
 	}
 	for _, tx := range pp.p.Txs {
-		walk(tx.Root)
+		if tx.Root != nil {
+			walk(tx.Root)
+		}
 	}
 	return out
+}
+
+// classifyTx: a difference at the callee of a value-bearing CALL whose frame failed (per the reference,
+// and the real instruction pushed 0 as well), with MORE value there than the reference has, or with an
+// account where the reference has none, is an effect of a failed frame that survived; everything else
+// is classified by classify.
+func classifyTx(diffs []string, pp *prepared, res *model.C16TxResult, tr *tracer) string {
+	for a := range res.FailedValueCalls {
+		if tr.failedValueCalls[ca(a)] == 0 {
+			// the real call did not push 0: a different outcome, not a surviving effect
+			continue
+		}
+		hx := fmt.Sprintf("%x", a[:])
+		th := fmt.Sprintf("trie-account(hash %x)", model.Keccak256(a[:])[:6])
+		for _, d := range diffs {
+			switch {
+			case strings.HasPrefix(d, "balance("+hx+")") || strings.HasPrefix(d, "trie-balance("+hx+")"):
+				var real, ref uint64
+				if i := strings.Index(d, "real "); i >= 0 {
+					if _, err := fmt.Sscanf(d[i:], "real %d, reference %d", &real, &ref); err == nil && real > ref {
+						return "failed-frame-effect-survived:value-transfer"
+					}
+				}
+			case strings.HasPrefix(d, "account("+hx+"): exists") || strings.HasPrefix(d, th):
+				return "failed-frame-effect-survived:created-account"
+			}
+		}
+	}
+	for a := range res.FailedCreates {
+		if acc := res.Pre.Accts[a]; acc != nil && !acc.Empty() {
+			continue
+		}
+		hx := fmt.Sprintf("%x", a[:])
+		th := fmt.Sprintf("trie-account(hash %x)", model.Keccak256(a[:])[:6])
+		for _, d := range diffs {
+			if strings.HasPrefix(d, "account("+hx+"): exists") || strings.HasPrefix(d, th) {
+				// the address of a creation frame that failed (per the reference) carries an account
+				return "failed-frame-effect-survived:created-account"
+			}
+		}
+	}
+	return classify(diffs, pp)
 }
 
 // classify picks the violation class from a list of differences.
